@@ -5,6 +5,7 @@ package contracts_test
 import (
 	"database/sql"
 	"encoding/binary"
+	"errors"
 	"fmt"
 	"path/filepath"
 	"strings"
@@ -28,8 +29,51 @@ import (
 // storage proof for it was handed to the pool.  Monitors: the theorem's own conclusion on
 // the real rows (never failed while the data is held; successful / renewed once the
 // window is over with the formation on chain).
+// WP-O: stubs that fail on demand.  fund: wallet.FundTransaction / FundV2Transaction return an error
+// (update.go:241,294,345,391,421); pool: AddPoolTransactions / AddV2PoolTransactions refuse the set
+// (update.go:248,307,353,404,444).  ProcessActions must survive both, hand nothing to the syncer for
+// that action and select the contract again at the next pass.
+type c06Fail struct{ fund, pool bool }
+
+type c06FailChain struct {
+	c06Chain
+	f *c06Fail
+}
+
+func (c c06FailChain) AddPoolTransactions(t []types.Transaction) (bool, error) {
+	if c.f.pool {
+		return false, errors.New("verif: pool refuses")
+	}
+	return c.c06Chain.AddPoolTransactions(t)
+}
+func (c c06FailChain) AddV2PoolTransactions(b types.ChainIndex, t []types.V2Transaction) (bool, error) {
+	if c.f.pool {
+		return false, errors.New("verif: pool refuses")
+	}
+	return c.c06Chain.AddV2PoolTransactions(b, t)
+}
+
+type c06FailWallet struct {
+	c06Wallet
+	f        *c06Fail
+	released *int
+}
+
+func (w c06FailWallet) FundTransaction(t *types.Transaction, a types.Currency, u bool) ([]types.Hash256, error) {
+	if w.f.fund {
+		return nil, errors.New("verif: insufficient balance")
+	}
+	return w.c06Wallet.FundTransaction(t, a, u)
+}
+func (w c06FailWallet) FundV2Transaction(t *types.V2Transaction, a types.Currency, u bool) (types.ChainIndex, []int, error) {
+	if w.f.fund {
+		return types.ChainIndex{}, nil, errors.New("verif: insufficient balance")
+	}
+	return w.c06Wallet.FundV2Transaction(t, a, u)
+}
+
 func TestVerifC06Life(t *testing.T) {
-	em := newVerifEmitter(t, "From HostdBase Require Import Base.\nFrom HostdActions Require Import Rows Liveness Liveness2 LivenessCorr.", "lcase", "lcheck")
+	em := newVerifEmitter(t, "From HostdBase Require Import Base.\nFrom HostdActions Require Import Rows Liveness Liveness2 Liveness2G Liveness2R LivenessCorr.", "lcase", "lcheck")
 	defer em.Close()
 
 	renterKey := types.NewPrivateKeyFromSeed(make([]byte, 32)).PublicKey()
@@ -52,7 +96,8 @@ func TestVerifC06Life(t *testing.T) {
 			t.Fatal(err)
 		}
 		syncer := &c06Syncer{}
-		cm, err := contracts.NewManager(db, c06Storage{}, c06Chain{}, syncer, c06Wallet{}, contracts.WithRevisionSubmissionBuffer(2))
+		fail := &c06Fail{}
+		cm, err := contracts.NewManager(db, c06Storage{}, c06FailChain{f: fail}, syncer, c06FailWallet{f: fail}, contracts.WithRevisionSubmissionBuffer(2))
 		if err != nil {
 			t.Fatal(err)
 		}
@@ -215,10 +260,51 @@ func TestVerifC06Life(t *testing.T) {
 			}
 		}
 		// ProcessActions at the tip: was a storage proof for the contract handed to the pool?
+		// v2 cases (WP-O): what happens after a block is generated too — no pass (a tip inside a
+		// batch), or a pass during which the wallet or the pool refuses; recorded for Liveness2G.gstep2
+		injected := false // a pass was skipped or made to fail in this case
+		pact := "(Pass true 0)"
+		choosePass := func(last bool) (run bool) {
+			fail.fund, fail.pool = false, false
+			pact = "(Pass true 0)"
+			if !v2 {
+				return true
+			}
+			switch r := rng.Intn(10); {
+			case r < 2 && !last:
+				pact, injected = "NoPass", true
+				em.Count("pass:none")
+				return false
+			case r < 4:
+				fail.fund, pact, injected = true, "(Pass false 0)", true
+				em.Count("pass:fund-fails")
+			case r < 5:
+				fail.pool, pact, injected = true, "(Pass false 0)", true
+				em.Count("pass:pool-refuses")
+			default:
+				em.Count("pass:good")
+			}
+			return true
+		}
 		process := func(h uint64) bool {
 			syncer.v1, syncer.v2 = nil, nil
-			if err := cm.ProcessActions(idxAt(h)); err != nil {
-				t.Fatal(err)
+			func() {
+				defer func() {
+					if r := recover(); r != nil {
+						em.Monitor("process-actions-panics", fmt.Sprintf("tip %d fund-fails=%v pool-refuses=%v: %v", h, fail.fund, fail.pool, r))
+					}
+				}()
+				if err := cm.ProcessActions(idxAt(h)); err != nil {
+					em.Monitor("process-actions-fails", fmt.Sprintf("tip %d fund-fails=%v pool-refuses=%v: %v", h, fail.fund, fail.pool, err))
+				}
+			}()
+			// an action the wallet could not fund or the pool refused must not be announced (a v2
+			// formation needs no funding: it may still be re-broadcast while the wallet is empty)
+			for _, set := range syncer.v2 {
+				last := set[len(set)-1]
+				if fail.pool || (fail.fund && len(last.FileContractRevisions)+len(last.FileContractResolutions) > 0) {
+					em.Monitor("refused-action-broadcast", fmt.Sprintf("tip %d fund-fails=%v pool-refuses=%v: a set of %d transactions was handed to the syncer", h, fail.fund, fail.pool, len(set)))
+				}
 			}
 			for _, set := range syncer.v1 {
 				last := set[len(set)-1]
@@ -256,10 +342,12 @@ func TestVerifC06Life(t *testing.T) {
 			if err != nil {
 				t.Fatal(err)
 			}
-			if held && c.Status == contracts.V2ContractStatusFailed {
-				em.Monitor("contract-with-held-data-failed", fmt.Sprintf("v2 tip %d window %d-%d", tip, ws, we))
+			// with injected failures the clause is c06_v2_one_attempt_suffices_partial: a proof reached the pool on this branch
+			protected := held && (!injected || sentAny())
+			if protected && c.Status == contracts.V2ContractStatusFailed {
+				em.Monitor("contract-with-held-data-failed", fmt.Sprintf("v2 tip %d window %d-%d injected=%v", tip, ws, we, injected))
 			}
-			if held && formed() && tip >= we && c.Status != contracts.V2ContractStatusSuccessful && c.Status != contracts.V2ContractStatusRenewed {
+			if protected && formed() && tip >= we && c.Status != contracts.V2ContractStatusSuccessful && c.Status != contracts.V2ContractStatusRenewed {
 				em.Monitor("contract-with-held-data-not-successful", fmt.Sprintf("v2 tip %d window %d-%d: %v", tip, ws, we, c.Status))
 			}
 			em.Count("v2-row:" + string(c.Status))
@@ -301,14 +389,17 @@ func TestVerifC06Life(t *testing.T) {
 					break
 				}
 				sent := false
+				run := choosePass(false)
 				if len(chain) > 0 {
-					sent = process(uint64(len(chain)))
+					if run {
+						sent = process(uint64(len(chain)))
+					}
 					chain[len(chain)-1].sent = chain[len(chain)-1].sent || sent
 					sent = chain[len(chain)-1].sent
 				}
 				op := "LRevert"
 				if v2 {
-					op = "L2Revert"
+					op = "LGRevert " + pact
 				}
 				em.Step(op, observe(sent))
 				em.Count("step:revert")
@@ -354,7 +445,10 @@ func TestVerifC06Life(t *testing.T) {
 				break
 			}
 			chain = append(chain, b)
-			sent := process(h)
+			sent := false
+			if choosePass(h+1 >= target) {
+				sent = process(h)
+			}
 			chain[len(chain)-1].sent = sent
 			sawProof = sawProof || b.proof
 			rv := "None"
@@ -368,7 +462,7 @@ func TestVerifC06Life(t *testing.T) {
 				if b.form {
 					fr = fmt.Sprintf("(Some %d%%N)", b.formRev)
 				}
-				em.Step(fmt.Sprintf("L2Mine {| d_form := %s; d_rev := %s; d_proof := %v; d_renew := %v; d_expire := %v |}", fr, rv, b.proof, b.renew, b.end), observe(sent))
+				em.Step(fmt.Sprintf("LGMine {| d_form := %s; d_rev := %s; d_proof := %v; d_renew := %v; d_expire := %v |} %s", fr, rv, b.proof, b.renew, b.end, pact), observe(sent))
 			}
 			switch {
 			case b.form:
